@@ -80,7 +80,9 @@ def _get_saved_where_filter(zdir: PathLike, query_name: str) -> Optional[str]:
         if in_where_filter:
             where_words.append(word)
 
-    where_filter = " ".join(where_words)
+    # Extra blanks around the clause keywords of a hand-written page must not
+    # end up inside the referencing query.
+    where_filter = " ".join(where_words).strip()
     for sub_query_name in _get_saved_query_names(where_filter):
         sub_where_filter = _get_saved_where_filter(zdir, sub_query_name)
         if sub_where_filter is None:
